@@ -1,6 +1,8 @@
 """C08 — nested differentiation is isolated (no perturbation confusion at any depth / mode)."""
 import json
 import math
+
+import numpy as onp
 from functools import partial
 
 from ..case import Outcome, fail, ok, raised
@@ -74,8 +76,12 @@ def ops():
     }
 
 
-def gen(c, vars_, depth, counter):
-    """Draw an expression; depth bounds the tree height."""
+def gen(c, vars_, depth, counter, nary=False):
+    """Draw an expression; depth bounds the tree height.  nary: binary operations are sometimes replaced by ONE operation on three
+    operands drawn as shallow expressions (so that single variables of different levels meet in one call, in every order)."""
+    if nary and depth > 0 and c.chance(1, 3):
+        kids = [gen(c, vars_, min(depth - 1, c.int(0, 1)), counter, nary) for _ in range(3)]
+        return ("A3k%d" % c.int(0, 2),) + tuple(kids)
     if depth <= 0:
         k = c.int(0, 3)
         return ("v", vars_[c.int(0, len(vars_) - 1)]) if k else ("c", c.choice([0.5, 0.75, 1.25, 1.5]))
@@ -85,17 +91,17 @@ def gen(c, vars_, depth, counter):
     if k == 2:
         return ("c", c.choice([0.5, 0.75, 1.25, 1.5]))
     if k <= 4:
-        return ("+", gen(c, vars_, depth - 1, counter), gen(c, vars_, depth - 1, counter))
+        return ("+", gen(c, vars_, depth - 1, counter, nary), gen(c, vars_, depth - 1, counter, nary))
     if k <= 6:
-        return ("*", gen(c, vars_, depth - 1, counter), gen(c, vars_, depth - 1, counter))
+        return ("*", gen(c, vars_, depth - 1, counter, nary), gen(c, vars_, depth - 1, counter, nary))
     if k == 7:
-        return ("/", gen(c, vars_, depth - 1, counter), ("+", ("c", 2.0), ("pow", gen(c, vars_, depth - 2, counter), 2)))
+        return ("/", gen(c, vars_, depth - 1, counter, nary), ("+", ("c", 2.0), ("pow", gen(c, vars_, depth - 2, counter, nary), 2)))
     if k == 8:
-        return (c.choice(["sin", "exp", "tanh", "cos"]), ("*", ("c", 0.5), gen(c, vars_, depth - 1, counter)))
+        return (c.choice(["sin", "exp", "tanh", "cos"]), ("*", ("c", 0.5), gen(c, vars_, depth - 1, counter, nary)))
     if k == 9:
-        return ("pow", gen(c, vars_, depth - 1, counter), c.choice([2, 3]))
+        return ("pow", gen(c, vars_, depth - 1, counter, nary), c.choice([2, 3]))
     if k == 10 and c.chance(1, 3):
-        return ("F", gen(c, vars_, depth - 1, counter))
+        return ("F", gen(c, vars_, depth - 1, counter, nary))
     counter[0] += 1
     y = "y%d" % counter[0]
     if k == 10 and c.chance(1, 2):
@@ -109,14 +115,14 @@ def gen(c, vars_, depth, counter):
         kernel = [("*", ("sin", ("*", ("c", 0.5), ("+", va, ("*", ("c", 2.0), vb)))), ("pow", vb, 2)),
                   ("*", ("pow", va, 2), ("pow", vb, 3)),
                   ("/", ("*", va, ("exp", ("*", ("c", 0.5), vb))), ("+", ("c", 2.0), ("pow", va, 2)))][c.int(0, 2)]
-        mbody = ("+", ("*", kernel, gen(c, vars_ + [y, y2], depth - 2, counter)), gen(c, vars_ + [y, y2], depth - 2, counter))
-        return ("M", spec, (y, y2), mbody, ("pair", gen(c, vars_, depth - 2, counter), gen(c, vars_, depth - 2, counter)))
+        mbody = ("+", ("*", kernel, gen(c, vars_ + [y, y2], depth - 2, counter, nary)), gen(c, vars_ + [y, y2], depth - 2, counter, nary))
+        return ("M", spec, (y, y2), mbody, ("pair", gen(c, vars_, depth - 2, counter, nary), gen(c, vars_, depth - 2, counter, nary)))
     if k == 11 and c.chance(1, 3):
-        return ("H", HMODES[c.int(0, len(HMODES) - 1)], y, gen(c, vars_ + [y], depth - 1, counter), gen(c, vars_, depth - 2, counter))
+        return ("H", HMODES[c.int(0, len(HMODES) - 1)], y, gen(c, vars_ + [y], depth - 1, counter, nary), gen(c, vars_, depth - 2, counter, nary))
     if k == 12:
-        return ("P", PMODES[c.int(0, len(PMODES) - 1)], y, gen(c, vars_ + [y], depth - 1, counter), gen(c, vars_, depth - 2, counter))
+        return ("P", PMODES[c.int(0, len(PMODES) - 1)], y, gen(c, vars_ + [y], depth - 1, counter, nary), gen(c, vars_, depth - 2, counter, nary))
     mode = MODES[c.int(0, len(MODES) - 1)]
-    return ("D", mode, y, gen(c, vars_ + [y], depth - 1, counter), gen(c, vars_, depth - 2, counter))
+    return ("D", mode, y, gen(c, vars_ + [y], depth - 1, counter, nary), gen(c, vars_, depth - 2, counter, nary))
 
 
 def comp(e, env, OPS, np):
@@ -158,6 +164,14 @@ def comp(e, env, OPS, np):
         _, mode, var, body, at = e
         f = lambda y: comp(body, {**env, var: y}, OPS, np)
         return OPS[mode](f)(comp(at, env, OPS, np))
+    if t.startswith("A3"):
+        a, b, c_ = (comp(k_, env, OPS, np) for k_ in e[1:])
+        if t == "A3k0":
+            arr = np.array([a, b, c_])
+            return arr[0] * arr[1] + np.sin(0.5 * arr[2])
+        if t == "A3k1":
+            return np.einsum(",,->", a, b, c_)
+        return np.dot(np.concatenate([np.atleast_1d(a), np.atleast_1d(b), np.atleast_1d(c_)]), onp.array([0.5, -1.5, 2.0]))
     return getattr(np, t)(comp(e[1], env, OPS, np))
 
 
@@ -232,7 +246,7 @@ def modeseq(e, acc=None):
     return acc
 
 
-def body(depth, c):
+def body(depth, c, nary=False):
     import autograd.numpy as anp
 
     OPS = ops()
@@ -243,10 +257,10 @@ def body(depth, c):
     counter[0] += 1
     y = "y%d" % counter[0]
     if c.chance(1, 5):
-        inner = ("P", PMODES[c.int(0, len(PMODES) - 1)], y, gen(c, ["x", y], depth - 1, counter), gen(c, ["x"], depth - 1, counter))
+        inner = ("P", PMODES[c.int(0, len(PMODES) - 1)], y, gen(c, ["x", y], depth - 1, counter, nary), gen(c, ["x"], depth - 1, counter, nary))
     else:
-        inner = ("D", MODES[c.int(0, len(MODES) - 1)], y, gen(c, ["x", y], depth - 1, counter), gen(c, ["x"], depth - 2, counter))
-    rest = gen(c, ["x"], depth - 1, counter)
+        inner = ("D", MODES[c.int(0, len(MODES) - 1)], y, gen(c, ["x", y], depth - 1, counter, nary), gen(c, ["x"], depth - 2, counter, nary))
+    rest = gen(c, ["x"], depth - 1, counter, nary)
     top = c.int(0, 3)
     outer_body = [("*", rest, inner), ("+", inner, rest), inner, ("*", ("v", "x"), inner)][top]
     e = ("D", mode, "x", outer_body, ("c", x0))
@@ -355,6 +369,109 @@ def vector_body(c):
     return ok(nontrivial=uses_outer, key=json.dumps([n, inner_mode, outer_mode, uses_outer]), labels=[f"inner={inner_mode}", f"outer={outer_mode}"], sample=sample)
 
 
+def vector3_body(c):
+    """Three nested levels around a matrix product.  The innermost differentiation (with respect to one operand of the product) closes
+    over the variables of BOTH enclosing levels: the other operand is s*M0 + y*M1 and the result is scaled by phi(y).  Reference: the
+    closed form of the innermost gradient in raw NumPy, its mixed partial d2/ds dy by Richardson-extrapolated central differences."""
+    import autograd
+    import autograd.numpy as anp
+
+    from .. import values
+
+    k = c.int(2, 3)
+    vseed = c.seed()
+    (A0, A1, W, B0, B1, W2), _ = values.generic(vseed, [(2, k), (2, k), (2, k), (k, 3), (k, 3), (k, 3)], -1.0, 1.0)
+    prod_kind = c.choice(["dot", "tensordot", "inner", "matmul", "einsum"])
+    which = c.int(0, 1)
+    inner_mode = c.choice(["grad", "vjp", "jacobian", "fwd_basis"])
+    mid_mode, outer_mode = c.choice(["grad", "deriv", "jvp"]), c.choice(["grad", "deriv", "jvp"])
+    phi_kind = c.int(0, 1)
+    ymix = float(c.int(0, 1))  # 0: the other operand depends on the OUTERMOST variable only (the cotangent on the middle one)
+    s0, y0 = c.choice([0.6, 0.8, 1.1]), c.choice([0.7, 1.3, 1.7])
+    sample = {"k": k, "prod": prod_kind, "other_operand_uses_y": ymix, "wrt_operand": which, "inner": inner_mode, "mid": mid_mode, "outer": outer_mode, "phi": phi_kind, "vseed": vseed}
+
+    def prod(np_, A, B):
+        if prod_kind == "dot":
+            return np_.dot(A, B)
+        if prod_kind == "tensordot":
+            return np_.tensordot(A, B, axes=([1], [0]))
+        if prod_kind == "inner":
+            return np_.inner(A, B.T)
+        if prod_kind == "matmul":
+            return A @ B
+        return np_.einsum("ij,jk->ik", A, B)
+
+    phi = (lambda np_, y: np_.sin(y)) if phi_kind == 0 else (lambda np_, y: y * y)
+
+    def G(s, y):  # closed form of sum(weights * d/d(operand) sum(sin(A B) phi(y)))
+        if which == 0:
+            B = s * B0 + ymix * y * B1
+            return float(phi(onp, y) * onp.sum(W * (onp.cos(A0 @ B) @ B.T)))
+        A = s * A0 + ymix * y * A1
+        return float(phi(onp, y) * onp.sum(W2 * (A.T @ onp.cos(A @ B0))))
+
+    def mixed(h):
+        return (G(s0 + h, y0 + h) - G(s0 + h, y0 - h) - G(s0 - h, y0 + h) + G(s0 - h, y0 - h)) / (4 * h * h)
+
+    m1, m2 = mixed(1e-3), mixed(2e-3)
+    want = (4 * m1 - m2) / 3
+    if abs(m1 - m2) > 1e-4 * max(1.0, abs(want)):
+        return Outcome("inconclusive", detail="mixed partial not resolved", sample=sample)
+
+    def first(fun, mode):
+        if mode == "grad":
+            return autograd.grad(fun)
+        if mode == "deriv":
+            return autograd.deriv(fun)
+        return lambda t: autograd.make_jvp(fun)(t)(1.0)[1]
+
+    def K(s):
+        def H(y):
+            if which == 0:
+                other, at, wts = (s * B0 + y * B1 if ymix else s * B0), A0, W
+                F = lambda A: anp.sum(anp.sin(prod(anp, A, other)) * phi(anp, y))
+            else:
+                other, at, wts = (s * A0 + y * A1 if ymix else s * A0), B0, W2
+                F = lambda B: anp.sum(anp.sin(prod(anp, other, B)) * phi(anp, y))
+            if inner_mode == "grad":
+                dF = autograd.grad(F)(at)
+            elif inner_mode == "vjp":
+                dF = autograd.make_vjp(F)(at)[0](1.0)
+            elif inner_mode == "jacobian":
+                dF = autograd.jacobian(F)(at)
+            else:
+                rows = []
+                for i in range(at.shape[0]):
+                    row = []
+                    for j in range(at.shape[1]):
+                        E = onp.zeros(at.shape)
+                        E[i, j] = 1.0
+                        row.append(autograd.make_jvp(F)(at)(E)[1])
+                    rows.append(row)
+                dF = anp.array(rows)
+            return anp.sum(wts * dF)
+        return first(H, mid_mode)(y0)
+
+    bucket = lambda kd: f"C08|vector3|{kd}"
+    try:
+        val_mid = K(s0)
+        got = first(K, outer_mode)(s0)
+    except NotImplementedError as ex:
+        if "not defined" in str(ex):
+            return raised(ex, "vector3", sample=sample)
+        return fail("unexpected_exception", f"{type(ex).__name__}: {ex}"[:300], bucket("unexpected_exception"), sample=sample)
+    except Exception as ex:
+        return fail("unexpected_exception", f"{type(ex).__name__}: {ex}"[:300], bucket("unexpected_exception"), sample=sample)
+    dy = (G(s0, y0 + 1e-5) - G(s0, y0 - 1e-5)) / 2e-5
+    if not abs(float(val_mid) - dy) <= 1e-6 * max(1.0, abs(dy)):
+        return fail("wrong_value", f"depth 2 (d/dy of the innermost gradient): autograd {float(val_mid)!r} closed form {dy!r}", bucket("wrong_value_depth2"), sample=sample)
+    if not abs(float(got) - want) <= 1e-5 * max(1.0, abs(want)):
+        return fail("wrong_value", f"depth 3 (d/ds d/dy of the innermost gradient): autograd {float(got)!r} closed form {want!r}", bucket("wrong_value"), sample=sample)
+    c.features.update(prod=prod_kind, inner=inner_mode, mid=mid_mode, outer=outer_mode)
+    return ok(nontrivial=True, key=json.dumps([k, prod_kind, which, inner_mode, mid_mode, outer_mode, phi_kind, ymix]),
+              labels=[f"prod={prod_kind}", f"modes={outer_mode}>{mid_mode}>{inner_mode}"], sample=sample)
+
+
 def layout_body(c):
     """Nested differentiation through a layout-dependent operation: ravel / reshape with order='A' (or 'K') of a Fortran-ordered array
     that depends on the variables of both levels.  Closed form: reading a Fortran-ordered array with order='A' is reading it in F order."""
@@ -418,7 +535,9 @@ def layout_body(c):
 PROP = Prop("C08", [
     Test("nested_d3", partial(body, 3), quick=4000, thorough=20000, shard_size=150),
     Test("nested_d4", partial(body, 4), quick=2500, thorough=12000, shard_size=100),
+    Test("nested_nary", partial(body, 3, nary=True), quick=3000, thorough=16000, shard_size=150),
     Test("vector", vector_body, quick=1000, thorough=4000, shard_size=100),
+    Test("vector3", vector3_body, quick=800, thorough=6000, shard_size=100),
     Test("layout", layout_body, quick=600, thorough=4000, shard_size=100),
 ], RULE, assumptions=[
     "reference symbolic differentiator (vh/refs/symbolic.py) is correct; it shares no code with autograd",
